@@ -84,6 +84,10 @@ def cam_vec(el, rot):
 def gen_camera_case(R, integer=False):
     el = R.choice([0.0, 90.0, 180.0, 45.0, R.uniform(0, 180), R.uniform(0, 180)])
     rot = R.choice([0.0, 90.0, 180.0, 270.0, R.uniform(0, 360), R.uniform(0, 360)])
+    if R.random() < 0.25:
+        # angles outside the usual ranges are legal (the axis is a trigonometric function of them)
+        el = R.choice([-90.0, -45.0, 225.0, 270.0, 360.0, 405.0, R.uniform(-360, 720)])
+        rot = R.choice([rot, -90.0, 450.0, 720.0, R.uniform(-720, 720)])
     theta = R.choice([5.0, 15.0, 30.0, 45.0, 60.0, 90.0, 120.0, 180.0, 200.0, 270.0, R.uniform(1, 179)])
     reach = R.choice([5.0, 10.0, 20.0, R.uniform(1, 30)])
     n = R.randint(1, 7)
@@ -111,7 +115,7 @@ def gen_camera_case(R, integer=False):
     nodes.insert(me, cam)
     case = {"reach": reach, "theta": theta, "el": el, "rot": rot, "me": me, "nodes": nodes}
     if R.random() < 0.2:
-        case["first"] = (R.uniform(0, 180), R.uniform(0, 360))
+        case["first"] = (R.choice([R.uniform(0, 180), 225.0, -90.0]), R.uniform(0, 360))
         if R.random() < 0.5:
             case["shared"] = True
     return case
